@@ -27,12 +27,34 @@ fn tx_accessors(t: &Transaction) {
     let _ = (t.txid(), t.wtxid(), t.size(), t.weight(), t.vsize(), t.discount_weight(), t.discount_vsize(), t.is_coinbase(), t.has_witness());
     let _ = t.all_fees();
     let _ = t.fee_in(elements::AssetId::from_byte_array(pat32(0)));
+    let s = crate::gen::secp();
+    // the cryptographic accessors (rewind, proof verification: ~0.1-5 ms each) run on a deterministic 1-in-2048 subset of
+    // the decoded transactions, chosen by a hash of the txid and wtxid, so that the neighbourhood sweep stays fast
+    let heavy = crate::engine::fnv(t.wtxid().as_ref()).wrapping_mul(31).wrapping_add(crate::engine::fnv(t.txid().as_ref())) % 2048 == 0;
     for i in &t.input {
-        let _ = (i.pegin_data().is_some(), i.pegin_prevout(), i.issuance_ids(), i.outpoint_flag(), i.is_coinbase());
+        let _ = (i.pegin_prevout(), i.issuance_ids(), i.outpoint_flag(), i.is_coinbase());
+        if let Some(pd) = i.pegin_data() {
+            // the fallible second-stage parsers of the pegin witness, and its re-assembly
+            let _ = (pd.parse_tx().is_ok(), pd.parse_merkle_proof().is_ok(), pd.to_pegin_witness().len());
+        }
+        if heavy && i.has_issuance() && t.input.len() <= 4 {
+            let mut j = i.clone();
+            let vbf = elements::confidential::ValueBlindingFactor::from_slice(crate::gen::tweak(9001).as_ref()).unwrap();
+            let _ = j.blind_issuances_with_bfs(s, vbf, vbf, crate::gen::sk(9002), crate::gen::sk(9003)).is_ok();
+        }
     }
     for o in &t.output {
         let _ = (o.pegout_data().is_some(), o.is_pegout(), o.minimum_value(), o.is_null_data(), o.is_fee(), o.is_partially_blinded());
-        let _ = (o.script_pubkey.asm(), o.script_pubkey.is_provably_unspendable());
+        let _ = (o.script_pubkey.asm(), o.script_pubkey.is_provably_unspendable(), o.witness.rangeproof_len(), o.witness.surjectionproof_len());
+        if heavy && t.output.len() <= 4 && o.witness.rangeproof.is_some() {
+            let _ = o.unblind(s, crate::gen::sk(9004)).is_ok();
+        }
+    }
+    if heavy && t.input.len() <= 3 && t.output.len() <= 4 {
+        // amount verification against semantically arbitrary spent outputs (right count, wrong count)
+        let spent: Vec<elements::TxOut> = (0..t.input.len()).map(|k| t.output.get(k).cloned().unwrap_or_default()).collect();
+        let _ = t.verify_tx_amt_proofs(s, &spent).is_ok();
+        let _ = t.verify_tx_amt_proofs(s, &[]).is_ok();
     }
     let p = Pset::from_tx(t.clone());
     let _ = (p.extract_tx().is_ok(), p.unique_id().is_ok(), p.locktime().is_ok());
@@ -223,6 +245,38 @@ pub fn apis() -> Vec<Api> {
         })),
         ("text/sighash-types", s_api(|s| {
             elements::EcdsaSighashType::from_str(s).is_ok() | elements::SchnorrSighashType::from_str(s).is_ok() | elements::pset::PsbtSighashType::from_str(s).is_ok()
+        })),
+        // raw PSET keys and proprietary keys (second-stage parsing of a key's bytes), and integer-typed conversions fed
+        // from the first bytes of the input
+        ("slice/pset::raw::Key+ProprietaryKey", Box::new(|b| match deserialize::<elements::pset::raw::Key>(b) {
+            Ok(k) => {
+                let _ = elements::pset::raw::ProprietaryKey::<u8>::from_key(&k).map(|pk| pk.to_key());
+                true
+            }
+            Err(_) => {
+                let k = elements::pset::raw::Key { type_value: b.first().copied().unwrap_or(0xfc), key: b.get(1..).unwrap_or(&[]).to_vec() };
+                let _ = elements::pset::raw::ProprietaryKey::<u8>::from_key(&k).is_ok();
+                let k = elements::pset::raw::Key { type_value: 0xfc, key: b.to_vec() };
+                elements::pset::raw::ProprietaryKey::<u8>::from_key(&k).is_ok()
+            }
+        })),
+        ("slice/pset::raw::Pair", Box::new(dec::<elements::pset::raw::Pair>)),
+        ("int/sighash+locktime-conversions", Box::new(|b| {
+            let mut w = [0u8; 4];
+            for (i, x) in b.iter().take(4).enumerate() {
+                w[i] = *x;
+            }
+            let n = u32::from_le_bytes(w);
+            let t = elements::pset::PsbtSighashType::from_u32(n);
+            let mut i = elements::pset::Input::default();
+            i.sighash_type = Some(t);
+            let _ = (t.ecdsa_hash_ty(), t.schnorr_hash_ty(), i.ecdsa_hash_ty(), i.schnorr_hash_ty(), format!("{}", t));
+            let _ = (elements::EcdsaSighashType::from_standard(n).is_ok(), elements::EcdsaSighashType::from_u32(n), elements::SchnorrSighashType::from_u8(n as u8));
+            let _ = (elements::locktime::Height::from_consensus(n).is_ok(), elements::locktime::Time::from_consensus(n).is_ok(), elements::LockTime::from_height(n).is_ok(), elements::LockTime::from_time(n).is_ok());
+            let _ = (elements::Sequence(n).is_relative_lock_time(), elements::Sequence::from_seconds_floor(n).is_ok(), elements::Sequence::from_seconds_ceil(n).is_ok());
+            let _ = elements::opcodes::Ordinary::try_from_all(elements::opcodes::All::from(n as u8));
+            let _ = elements::taproot::LeafVersion::from_u8(n as u8).is_ok();
+            true
         })),
         ("text/ContractHash::from_json_contract", s_api(|s| elements::ContractHash::from_json_contract(s).is_ok())),
         ("text/opcodes", s_api(|s| s.len() < 40 && format!("{:?}", elements::opcodes::All::from(s.len() as u8)).len() > 0)),
@@ -550,8 +604,8 @@ pub fn run(r: &Report) {
     let table = apis();
     r.set_rule(&format!(
         "(i) {} fallible decoders / parsers (every consensus decoder incl. PSET and its maps, slice parsers, text parsers), each followed by the \
-         accessors normally applied to a decoded value (ids, sizes, weights, pegin/pegout data, minimum value, fees, issuance ids, roots, \
-         PSET extract/unique id/lock time/merge): x all byte strings of length <= 2 (<= 3 thorough for the small decoders), x all strings of length <= 2 over the \
+         accessors normally applied to a decoded value (ids, sizes, weights, pegin/pegout data and its second-stage parsers, minimum value, fees, issuance ids, roots, \
+         PSET extract/unique id/lock time/merge; on a deterministic 1-in-2048 subset also unblind, blind_issuances_with_bfs and verify_tx_amt_proofs with arbitrary spent outputs), raw PSET keys / proprietary keys, integer-typed conversions (sighash, lock-time, sequence, opcode, leaf version): x all byte strings of length <= 2 (<= 3 thorough for the small decoders), x all strings of length <= 2 over the \
          address/hex/base64 alphabet, x the 1-deviation neighbourhood (substitution menu, truncation, extension, insertion, deletion, \
          non-minimal and huge length fields) of every valid encoding from the generators, C07's PSET generator, the address / script / control \
          block menus and the files in /repo/tests/data (2 deviations for encodings <= 48 bytes); (ii)+(iii) in-memory fallible operations with \
@@ -666,6 +720,9 @@ pub fn run(r: &Report) {
     let psets = crate::props::c07::generated_psets(false);
     for (_, p) in psets.iter().step_by(r.tier.pick(23, 3)) {
         let b = elements::encode::serialize(p);
+        if b.len() > 20_000 {
+            continue; // the 64 KiB length-boundary PSETs of C07: their neighbourhoods cost seconds each and add no new shape here
+        }
         seeds.push((fam(&["decode/Pset"]), b.clone()));
         let s64 = p.to_string();
         seeds.push((fam(&["text/Pset::from_str"]), s64.into_bytes()));
